@@ -356,7 +356,7 @@ C10_STEPS = [("C10.step.yields_head_frame", step_yield), ("C10.step.none", step_
              ("C05.elaborate_failure_keeps_frame", step_elab_fail), ("C13.no_contexts_when_disabled", step_no_contexts)]
 
 
-OUTER = Inv("C05.I_out", qf=base_qf, foralls=[("to_elaborate", fa_E), ("to_unwrap", fa_U), ("save_errors", fa_S)],
+OUTER = Inv("C05.I_out", header="to_unwrap or to_elaborate", qf=base_qf, foralls=[("to_elaborate", fa_E), ("to_unwrap", fa_U), ("save_errors", fa_S)],
             conts=["to_elaborate", "to_unwrap", "save_errors"], ghost_havoc=reset_raised,
             fields=[("hide", None), ("hide_line", None), ("contexts", None)],
             steps=[("C05.ledger.outer_iteration", ledger_step)] + C10_STEPS)
@@ -402,7 +402,7 @@ def unwrap_step(ctx):
     return And(keepE, rest_same, Or(to_E, push), counter)
 
 
-INNER = Inv("C10.I_unwrap", qf=inner_qf, foralls=[("to_elaborate", fa_E), ("to_unwrap", fa_U), ("save_errors", fa_S)],
+INNER = Inv("C10.I_unwrap", header="to_unwrap and", qf=inner_qf, foralls=[("to_elaborate", fa_E), ("to_unwrap", fa_U), ("save_errors", fa_S)],
             conts=["to_elaborate", "to_unwrap", "save_errors"], var_types={"loops_since_progress": "int"},
             ghost_havoc=reset_raised, steps=[("C05.ledger.unwrap_iteration", ledger_step), ("C10.step.unwrap", unwrap_step)])
 
@@ -449,7 +449,7 @@ def fa_push1_new(ctx, pth, j):
     return Implies(And(j >= H.lo_(U), j < ctx.H0.lo_(U)), And(shape_U(H, e), H.at(e, 2) == mkint(Val.i(d) + 1), H.at(e, 1) != NONE))
 
 
-PUSH1 = Inv("C10.I_push_children", qf=push1_qf, foralls=[("to_unwrap", fa_push1_keep), ("to_unwrap", fa_push1_new)],
+PUSH1 = Inv("C10.I_push_children", header="item in rev_items", qf=push1_qf, foralls=[("to_unwrap", fa_push1_keep), ("to_unwrap", fa_push1_new)],
             conts=["to_unwrap"])
 
 
@@ -459,7 +459,7 @@ def fill_qf(ctx):
     return And(H.lo_(S) == H0.lo_(S), H.hi_(S) >= H0.hi_(S))
 
 
-FILL = Inv("C05.I_fill_contexts", qf=fill_qf, foralls=[("save_errors", fa_S)], conts=["save_errors"], ghost_havoc=reset_raised,
+FILL = Inv("C05.I_fill_contexts", header="context in frame.contexts", qf=fill_qf, foralls=[("save_errors", fa_S)], conts=["save_errors"], ghost_havoc=reset_raised,
            steps=[("C05.ledger.fill_iteration", ledger_step)])
 
 
@@ -490,7 +490,7 @@ def fa_mv_moved(ctx, pth, j):
                    And(shape_U(H, e), H.at(e, 0) == NONE, H.at(e, 1) == H0.at(src, 0), H.at(e, 2) == H0.at(src, 1)))
 
 
-MOVE = Inv("C10.move", qf=mv_qf, foralls=[("to_elaborate", fa_mv_keepE), ("to_unwrap", fa_mv_keepU), ("to_unwrap", fa_mv_moved)],
+MOVE = Inv("C10.move", header="to_elaborate", qf=mv_qf, foralls=[("to_elaborate", fa_mv_keepE), ("to_unwrap", fa_mv_keepU), ("to_unwrap", fa_mv_moved)],
            conts=["to_elaborate", "to_unwrap"])
 
 
@@ -507,7 +507,7 @@ def fa_dr_dropped(ctx, pth, j):
     return Implies(And(j >= ctx.H0.lo_(U), j < ctx.H.lo_(U)), Val.i(ctx.H0.at(e, 2)) >= Val.i(ctx.v("depth")))
 
 
-DROP = Inv("C10.drop", qf=dr_qf, foralls=[("to_unwrap", fa_dr_dropped)], conts=["to_unwrap"])
+DROP = Inv("C10.drop", header="to_unwrap[0][2]", qf=dr_qf, foralls=[("to_unwrap", fa_dr_dropped)], conts=["to_unwrap"])
 
 
 def pu_qf(ctx):
@@ -532,7 +532,7 @@ def fa_pu_pushed(ctx, pth, j):
                    And(shape_U(H, e), H.at(e, 1) == src, H.at(e, 2) == ctx.v("depth"), H.at(e, 0) == bo_term(src, NONE)))
 
 
-PUSH3 = Inv("C10.push", qf=pu_qf, foralls=[("to_unwrap", fa_pu_keep), ("to_unwrap", fa_pu_pushed)], conts=["to_unwrap"])
+PUSH3 = Inv("C10.push", header="item in reversed(items)", qf=pu_qf, foralls=[("to_unwrap", fa_pu_keep), ("to_unwrap", fa_pu_pushed)], conts=["to_unwrap"])
 
 INVARIANTS = {(EI, "while#1"): OUTER, (EI, "while#2"): INNER, (EI, "while#3"): DRAIN, (EI, "for#1"): PUSH1,
               (EI, "for#2"): FILL, (EI, "while#4"): MOVE, (EI, "while#5"): DROP, (EI, "for#3"): PUSH3}
